@@ -84,6 +84,7 @@ let model_line (toks : string list) : string =
   | "perm" :: "delete" :: w :: r :: _ -> hex_of_n (delete_rank (n_of_hex w) (n_of_hex r)) ^ " st=1"
   | "perm" :: "empty" :: w :: _ -> hex_of_n (get_empty_slot (n_of_hex w))
   | "perm" :: "split" :: n :: _ -> hex_of_n (split_dest (n_of_hex n)) ^ " st=1"
+  | "perm" :: "publish" :: n :: _ -> Printf.sprintf "pub=ok cnk=%d" (int_of_n (n_of_hex n) + 1)
   | "perm" :: "index" :: w :: r :: _ -> hex_of_n (get_index_of_rank (n_of_hex w) (n_of_hex r))
   | "perm" :: "cnk" :: w :: _ ->
     hex_of_n (get_cnk (n_of_hex w)) ^ " " ^ hex_of_n (get_lowest_key_pos (n_of_hex w))
@@ -180,6 +181,8 @@ let oracle (toks : string list) (impl : string list) : string option =
       if not (perm_validb w) || not (N.ltb (get_cnk w) (n_of_int 15)) then None else
       if List.exists (fun x -> N.eqb x s) (perm_list w) then Some "get_empty_slot returned a slot in use"
       else if not (N.ltb s (n_of_int 15)) then Some "get_empty_slot out of range" else None
+    | "perm" :: "publish" :: _, p :: _ when p <> "pub=ok" ->
+      Some "the permutation word listed a slot before its entry (link_or_value word) was written"
     | "perm" :: "split" :: n :: _, w' :: _ ->
       let n = int_of_n (n_of_hex n) and w' = n_of_hex w' in
       if not (nlist_eq (perm_list w') (List.init n n_of_int)) then Some "split_dest not the identity" else None
